@@ -11,8 +11,9 @@ the handle is open; every state reachable from `New` is (`reachable_in_step`).
 
 All theorems quantify over every configuration (`MaxSize`, `MaxBackups` any naturals), every initial directory
 (pre-existing current file and backups, gaps, files beyond `MaxBackups`, files larger than `MaxSize`) and every history
-of `Write`/`Close`/re-open/`Sync`.  Not proved here: that concurrent writers never interleave bytes — the model is
-sequential (each method runs under the mutex); see the assumptions of the check. -/
+of `Write`/`Close`/re-open/`Sync`.  Concurrency: the section "concurrent goroutines" runs the same methods as micro-step
+programs on the generic mutex machine (`Model/Mutex.lean`) and proves the clause about concurrent writers for every
+schedule; the only thing left to the check's assumptions is that the Go code brackets every method with the mutex. -/
 namespace C12
 open Rot
 
@@ -217,11 +218,10 @@ inductive Merge : List Op → List Op → List Op → Prop where
   | left {o a b c} : Merge a b c → Merge (o :: a) b (o :: c)
   | right {o a b c} : Merge a b c → Merge a (o :: b) (o :: c)
 
-/-- clause "concurrent writers never interleave bytes within one write", **only under the assumption that the mutex
-    makes every call atomic** (not proved: the model has no finer steps than whole calls; see the assumptions of the
-    check and its `stress` oracle).  Under that assumption a run of two writers is some order-preserving merge `ops` of
-    their calls, and for every such merge the retained files are a suffix of the records in merge order — each
-    retained record contiguous, each writer's records in its own order. -/
+/-- the sequential core used by the concurrency section below (`concurrent_writes_never_interleave` shows that every
+    schedule of bracketed calls IS such a merge): for every order-preserving merge `ops` of two writers' calls the
+    retained files are a suffix of the records in merge order — each retained record contiguous, each writer's records
+    in its own order. -/
 theorem serialised_writers (cfg : Cfg) (s : St) (w₁ w₂ ops : List Op) (h : Merge w₁ w₂ ops) :
     (∃ pre, retained cfg s.files ++ (writesOf ops).flatten = pre ++ retained cfg (run cfg s ops).files) ∧
     ∃ m : List Op, Merge (w₁.filter Op.isWrite) (w₂.filter Op.isWrite) m ∧ writesOf m = writesOf ops := by
